@@ -41,4 +41,4 @@ def nontrivial(tr):
 
 def run(chk):
     eg.standard_run(chk, "C05", ["retry"], {"step_start", "step_end", "pub"}, key_of=key_of, nontrivial=nontrivial,
-                    extra=pol, keep=keep, collect_kw=dict(paths_q=8, paths_t=30, walks_q=3, walks_t=12, timeout_advance=False))
+                    extra=pol, keep=keep, collect_kw=dict(paths_q=14, paths_t=40, walks_q=4, walks_t=12, timeout_advance=False, sleep_ms=1000))
